@@ -53,6 +53,8 @@ def load_known(prop):
 def known_match(entry, cfg, ob):
     if entry.get("obligation") and entry["obligation"] != ob["name"]:
         return False
+    if entry.get("obligation_prefix") and not ob["name"].startswith(entry["obligation_prefix"]):
+        return False
     for k, v in (entry.get("cfg_match") or {}).items():
         if cfg.get(k) != v:
             return False
